@@ -31,7 +31,6 @@ SIGS = {
     'f2': 'C05:name-trailing-newline',
     'f3': 'C05:exemplar-label-name-raw',
     'f4': 'C05:unit-raw',
-    'g1': 'C05:graphite-prefix-raw',
     'g2': 'C05:graphite-empty-path',
 }
 
@@ -185,8 +184,9 @@ def g_custom_spec(rng):
 def g_case(rng):
     n = rng.randint(1, 3)
     specs = [(g_class_spec(rng) if rng.random() < 0.5 else g_custom_spec(rng)) for _ in range(n)]
+    # the Graphite prefix is operator configuration, outside the property's quantifier: path alphabet plus '.', or empty
     r = rng.random()
-    prefix = '' if r < 0.4 else (g_plain(rng) + rng.choice(['', '.q', '.a.b']) if r < 0.85 else g_text(rng))
+    prefix = '' if r < 0.4 else (g_plain(rng) + rng.choice(['', '.q', '.a.b', '-x', '.p_9']))
     return {'legacy': rng.random() < 0.5, 'specs': specs, 'prefix': prefix, 'tags': rng.random() < 0.5,
             'now': rng.choice([0, 123, 1700000000])}
 
@@ -201,9 +201,13 @@ CORPUS = [
     # F4: unit neither validated nor escaped
     {'legacy': False, 'specs': [{'k': 'gauge', 'name': 'g', 'doc': 'd', 'labelnames': [], 'ns': '', 'ss': '', 'unit': 'a\nb',
                                  'children': [{'lv': [], 'v': 1.0}]}], 'prefix': '', 'tags': False, 'now': 123},
-    # G1: graphite prefix inserted raw
-    {'legacy': False, 'specs': [{'k': 'gauge', 'name': 'm', 'doc': 'd', 'labelnames': [], 'ns': '', 'ss': '', 'unit': '',
-                                 'children': [{'lv': [], 'v': 1.0}]}], 'prefix': 'evil 1 1\ninjected', 'tags': False, 'now': 123},
+    # repaired F2 under UTF-8 validation (accepted, must be quoted), reserved-looking label name with an inner LF, F2-shaped info key,
+    # F2-shaped exemplar label name
+    {'legacy': False, 'specs': [
+        {'k': 'gauge', 'name': 'a\n', 'doc': 'h', 'labelnames': ['l\n', '__a\nb'], 'ns': '', 'ss': '', 'unit': '', 'children': [{'lv': ['v', 'w'], 'v': 1.0}]},
+        {'k': 'info', 'name': 'i', 'doc': '', 'labelnames': [], 'ns': '', 'ss': '', 'unit': '', 'children': [{'lv': [], 'v': 0, 'info': {'k\n': 'v', '__x\n': 'y'}}]},
+        {'k': 'counter', 'name': 'c', 'doc': 'h', 'labelnames': [], 'ns': '', 'ss': '', 'unit': '', 'children': [{'lv': [], 'v': 1.0, 'ex': {'t\n': 'x', 'a\n# EOF\nb': 'y'}}]}],
+     'prefix': 'p.q', 'tags': False, 'now': 123},
     # G2: empty sample name, empty prefix
     {'legacy': False, 'specs': [{'k': 'custom', 'cls': 'Metric', 'name': 'm', 'doc': 'd', 'unit': '', 'typ': 'gauge',
                                  'samples': [{'name': '', 'labels': {}, 'value': 1.0, 'ts': None, 'ex': None}]}],
@@ -930,8 +934,6 @@ def classify(case, where, why, culprits, extra, other_fails):
     """signature of a minimised failing case, read off what is left in the registry it builds"""
     fams = extra['built'].fams
     if where == 'graphite':
-        if any(k == 'prefix' for k, _ in culprits):
-            return SIGS['g1']
         if not case['prefix'] and any(s.name == '' for f in fams for s in f.samples):
             return SIGS['g2']
         return 'C05:other:graphite ' + why[:60]
@@ -1126,6 +1128,12 @@ def run(ctx):
                 'label name, label value, help, unit, namespace, enum state, info key/value, exemplar label name/value, sample name, bucket bound, '
                 'Graphite prefix; both validation settings; a case is non-trivial when it collects at least one family; distinct by '
                 '(family names, types, sample counts, setting)')
+    ctx.extra['documented_limits'] = [
+        'the Graphite `prefix` argument of push()/start() is operator configuration, not one of the application-supplied strings the '
+        'property quantifies over; push inserts it raw (a prefix containing LF or space forges lines, a non-ASCII one makes push raise '
+        'UnicodeEncodeError — theorem graphite_prefix_counterexample). Prefixes are therefore drawn only from [A-Za-z0-9_-] plus \'.\' '
+        'and the empty prefix; graphiteOK keeps that as a precondition on configuration.',
+    ]
     quick = ctx.tier == 'quick'
     n = 3000 if quick else 40000
     if ctx.broken:
